@@ -277,7 +277,7 @@ def c17(res):
     for f in fam(t, ["lines_q", "byte_q", "dict_q"], ["lines_t", "byte_t", "ext_t", "dict_q"]):
         replay_step(res, f, kinds=HEADS, modes="entries,caplaw")
     feed_traces(res, fam(t, 250000, 3000000), kinds="0,1,2")
-    session_traces(res, fam(t, 6000, 100000))
+    session_traces(res, fam(t, 6000, 40000))
     call_traces(res)
 
 
@@ -868,7 +868,7 @@ def c18(res):
     mc_head(res, "complete-determined", invs=["InvCompleteDetermined"], kinds='{"req", "resp"}', L="1", caps="{0, 1, 2, 100000}")
     for f in ("methods", "versions", "reasons", "ext_q", "dict_q"):
         replay_step(res, f, kinds="0,1", modes="entries")
-    session_traces(res, fam(t, 12000, 300000))
+    session_traces(res, fam(t, 12000, 60000))
 
 
 def client_programs(res, count):
